@@ -22,6 +22,20 @@ impl TokenizationError {
     }
 }
 
+impl TokenizationError {
+    /// Like `string_range`, for callers that have the offending text at hand: the
+    /// range never ends inside a multi-byte character (an illegal character is
+    /// reported by the index of its first byte only).
+    pub fn string_range_in(&self, string: &str) -> Range<usize> {
+        let range = self.string_range(string.len());
+        let mut end = range.end.min(string.len());
+        while !string.is_char_boundary(end) {
+            end += 1;
+        }
+        range.start.min(end)..end
+    }
+}
+
 impl Display for TokenizationError {
     fn fmt(&self, f: &mut std::fmt::Formatter<'_>) -> std::fmt::Result {
         match self {
